@@ -1,7 +1,7 @@
 (* props/C01.v - property C01: base and extension field arithmetic is exact and canonical.
    Only statements, each closed by `exact`, each followed by Print Assumptions. *)
 From Coq Require Import ZArith Bool List.
-From TF Require Import Word BFieldGen BField XField BFieldProofs BFieldLoops ModP XFieldProofs XFieldIrred BatchInvProofs.
+From TF Require Import Word BFieldGen BField XField BFieldProofs BFieldLoops ModP XFieldProofs XFieldIrred BatchInvProofs XFieldGen XFieldGenProofs.
 Import ListNotations.
 From TF Require Lucas.
 Open Scope Z_scope.
@@ -134,6 +134,11 @@ Theorem C01_xmul : forall x y, canon3 x -> canon3 y ->
   canon3 (xmul x y) /\ val3 (xmul x y) = red3 (vmul3 (val3 x) (val3 y)).
 Proof. exact xmul_spec. Qed.
 Print Assumptions C01_xmul.
+
+(* the model's xmul is the function regenerated from x_field_element.rs on this run *)
+Theorem C01_xmul_regenerated : forall x y, xfe_mul_gen x y = xmul x y.
+Proof. exact xfe_mul_gen_is_model. Qed.
+Print Assumptions C01_xmul_regenerated.
 
 Theorem C01_xscale : forall x k, canon3 x -> canon k ->
   canon3 (xscale x k) /\ val3 (xscale x k) = red3 (vmul3 (val3 x) (val k, 0, 0)).
